@@ -14,6 +14,16 @@ def declared_names(shapes):
             names.append(c[1])
         if isinstance(c, tuple) and len(c) == 3 and c[0] == 'declare-datatype' and isinstance(c[1], str):
             names.append(c[1])
+        # constructors and selectors are declared symbols too
+        cons = []
+        if isinstance(c, tuple) and len(c) == 3 and c[0] == 'declare-datatype' and isinstance(c[2], tuple):
+            cons = list(c[2])
+        if isinstance(c, tuple) and len(c) == 3 and c[0] == 'declare-datatypes' and isinstance(c[2], tuple):
+            cons = [k for dt in c[2] if isinstance(dt, tuple) for k in dt]
+        for k in cons:
+            if isinstance(k, tuple) and k and isinstance(k[0], str):
+                names.append(k[0])
+                names += [sel[0] for sel in k[1:] if isinstance(sel, tuple) and sel and isinstance(sel[0], str)]
     return names
 
 
@@ -70,6 +80,9 @@ def check_proposal(impl, P, exprs, in_shapes, in_ids, p):
     if s.fresh_vars and res is not exprs:
         already = set(declared_names(in_shapes))
         newdecl = [impl.to_shape(v) for v in s.fresh_vars]
+        dn = [d_[1] for d_ in newdecl if isinstance(d_, tuple) and len(d_) >= 2 and isinstance(d_[1], str)]
+        for name in sorted(set(n_ for n_ in dn if dn.count(n_) > 1)):
+            problems.append(f'declares {name!r} {dn.count(name)} times')
         for dshape in newdecl:
             if isinstance(dshape, tuple) and len(dshape) >= 2 and isinstance(dshape[1], str):
                 name = dshape[1]
@@ -109,6 +122,10 @@ def run(ctx):
     # fresh names that coincide with a declared FUNCTION (F33), a declared sort, a constructor or a selector
     extra_inputs.append('(set-logic ALL)\n(declare-fun _v ((_ BitVec 1)) Bool)\n(declare-const v (_ BitVec 8))\n(declare-fun s_prefix (Int) String)\n(declare-const s String)\n'
                         '(assert (_v ((_ extract 0 0) v)))\n(assert (str.contains s (s_prefix 1)))\n(check-sat)\n')
+    # a comment or a string literal where the symbol is expected; names that exist as constructor / selector (F47, F48)
+    extra_inputs.append('(set-logic ALL)\n(declare-const ; the counter\n x Int)\n(declare-fun ; c\n f (Int) Int)\n(declare-const "ab" Int)\n(assert (> x (f 0)))\n(check-sat)\n')
+    extra_inputs.append('(set-logic ALL)\n(declare-datatypes ((T 0)) (((_v) (mk (s_suffix Int)))))\n(declare-const v (_ BitVec 8))\n(declare-const s String)\n'
+                        '(declare-const ab_c Int)\n(assert (= v (bvadd v #x01)))\n(assert (str.contains s "ab"))\n(assert (> ab_c (s_suffix _v)))\n(check-sat)\n')
     import instances
     targeted = []
     for cls in instances.classes():
@@ -170,6 +187,32 @@ def run(ctx):
                 exprs = impl.nodes.reduplicate(P.apply(exprs, p['simp']))
             except Exception:  # noqa
                 break
+    # the grouped simplifications of the ddmin strategy (first simplification of every node of a subset, merged) are
+    # proposals too: same oracle
+    from ddsmt import strategy_ddmin
+    grouped_inputs = extra_inputs + ['(set-logic QF_S)\n(declare-const s String)\n(assert (str.contains s "ab"))\n(assert (str.contains s "cd"))\n(check-sat)\n',
+                                     '(set-logic ALL)\n(declare-const v (_ BitVec 8))\n(declare-const w (_ BitVec 8))\n(assert (= (bvadd v w) (bvmul v w)))\n(assert (= (bvadd v w) #x01))\n(check-sat)\n']
+    ngrouped = 0
+    for text in grouped_inputs:
+        exprs = impl.parse(text)
+        in_shapes = impl.to_shapes(exprs)
+        in_ids = set(impl.ids_of(exprs))
+        impl.smtlib.collect_information(exprs)
+        for _, cname, m in P.all_mutators():
+            if not (hasattr(m, 'mutations') or hasattr(m, 'global_mutations')):
+                continue
+            try:
+                n_ = strategy_ddmin.TaskGenerator(exprs, None, m).num_filtered
+            except Exception:  # noqa
+                continue
+            for gran in sorted(set(g for g in (n_, n_ // 2, 2) if g > 1), reverse=True):
+                for task in strategy_ddmin.TaskGenerator(exprs, gran, m):
+                    for simp in task.simplifications[:2]:
+                        ngrouped += 1
+                        for msg in check_proposal(impl, P, exprs, in_shapes, in_ids, dict(simp=simp)):
+                            ctx.violation('impl-violation', input=text, mutator=cname + ' (grouped by ddmin, granularity %d)' % gran, node='(subset %d)' % task.id,
+                                          observed=msg, expected='applicable, lexically closed, declarations fresh, unique and before their first use')
+    ctx.count('grouped ddmin simplifications checked', ngrouped)
     ctx.count('proposals checked', total)
     # TIE-C for Model/CoreRw.v (structural mutators, LetElimination, candidate names of SimplifySymbolNames): the theorems of
     # Props/CoreRw.v (closure, size/disorder measure, names) speak about these models
